@@ -14,7 +14,16 @@ def aut_case(inp):
     from synkit.Graph.Matcher.automorphism import Automorphism
     from synkit.Graph.Matcher.auto_est import AutoEst
     rng = random.Random(inp["seed"])
-    G, ids = gl.realise(inp["G"], rng)
+    if inp.get("pre") is not None:
+        # history: a differently wired look-alike (same node ids, labels, degrees and bond multiset) is analysed first
+        n = inp["G"]["n"]
+        plain = list(range(1, n + 1))
+        P, _ = gl.realise(inp["pre"], rng, ids=plain, shuffle=False)
+        Automorphism(P, node_attr_keys=NODE_ATTRS, edge_attr_keys=EDGE_ATTRS).orbits
+        AutoEst(P, node_attrs=NODE_ATTRS, edge_attrs=EDGE_ATTRS).fit()
+        G, ids = gl.realise(inp["G"], rng, ids=plain, shuffle=False)
+    else:
+        G, ids = gl.realise(inp["G"], rng)
     snap = gl.snapshot(G)
     a, _ = gl.project(G, NODE_ATTRS, EDGE_ATTRS, gl.Coder(), ids=ids, hcount=False)
     idx = {v: k + 1 for k, v in enumerate(ids)}
@@ -85,6 +94,23 @@ class S(core.Stage):
         return ["pruned"] if len(c["out"]) < len(c["inp"]) else []
 
 
+def two_switch(g, rng):
+    """bonds a-b, c-d replaced by a-d, c-b (orders kept): same degrees, labels and bond multiset, other wiring"""
+    n = g["n"]
+    es = [(u, v) for u in range(n) for v in range(u + 1, n) if g["adj"][u][v]]
+    rng.shuffle(es)
+    for (a, b) in es:
+        for (c, d) in es:
+            if len({a, b, c, d}) == 4 and not g["adj"][a][d] and not g["adj"][c][b] and g["lab"][b] == g["lab"][d]:
+                adj = [list(r) for r in g["adj"]]
+                o1, o2 = adj[a][b], adj[c][d]
+                adj[a][b] = adj[b][a] = adj[c][d] = adj[d][c] = 0
+                adj[a][d] = adj[d][a] = o1
+                adj[c][b] = adj[b][c] = o2
+                return {"n": n, "lab": list(g["lab"]), "hc": list(g["hc"]), "adj": adj}
+    return None
+
+
 def symmetric(rng) -> List[Any]:
     from harness.props.c08 import cyc, from_nx
     import networkx as nx
@@ -123,6 +149,12 @@ def run(ctx: core.Ctx) -> None:
             g = gl.random_graph(rng, n, nlab=2, maxhc=0, p=0.25, connected=True)
         rnd.append({"G": g, "seed": rng.randrange(10 ** 9)})
     core.run_stage(ctx, S("random<=9", aut_case, rnd, "|Aut| > 1"))
+    hist = []
+    for c in rnd + [{"G": x["G"]} for x in symmetric(rng)]:
+        sw = two_switch(c["G"], rng)
+        if sw is not None:
+            hist.append({"G": c["G"], "pre": sw, "seed": rng.randrange(10 ** 9)})
+    core.run_stage(ctx, S("after-a-rewired-look-alike-on-the-same-node-ids", aut_case, hist, "|Aut| > 1"))
     dd = []
     for _ in range(800 if q else 20000):
         H = gl.random_graph(rng, rng.randint(4, 9), nlab=2, maxhc=0, p=0.3, connected=rng.random() < 0.6)
@@ -136,12 +168,15 @@ def run(ctx: core.Ctx) -> None:
     core.run_stage(ctx, S("dedup-on-search-results", dedup_case, dd, "something was pruned"))
     # symmetry pruning during rule application versus applying the rule at every raw match (machinery of C05)
     from harness.props import c05
-    st = c05.S("pruned-versus-every-raw-match", c05.make_inputs(rng, "C11", 1 if q else 3, 40 if q else 300, 150 if q else 4000))
-    core.run_stage(ctx, st)
+    inputs = c05.make_inputs(rng, "C11", 1 if q else 3, 60 if q else 300, 250 if q else 4000)
+    core.run_stage(ctx, c05.S("pruned-versus-every-raw-match", inputs))
+    # the optional exact pruning (SynReactor(automorphism=True)) on the textbook templates and a sample of the others
+    exact = [dict(i, exact=True) for i in inputs if i["nvar"] != 2] + [dict(i, exact=True) for i in rng.sample([i for i in inputs if i["nvar"] == 2], 60 if q else 1500)]
+    core.run_stage(ctx, c05.S("exact-pruning-versus-every-raw-match", exact))
 
 
 def replay(ctx, data):
-    if data["stage"].startswith("pruned-versus"):
+    if "pruning-versus" in data["stage"] or data["stage"].startswith("pruned-versus"):
         from harness.props import c05
         return core.run_stage(ctx, c05.S(data["stage"], [data["input"]]))
     fn = dedup_case if data["stage"].startswith("dedup") else aut_case
